@@ -129,7 +129,7 @@ var c13ModeNames = [...]string{"preloaded", "paced", "nobuffer"}
 
 // c13Run executes one program; it returns the invocations seen until the stream drained (before the
 // flush) and all invocations after the flush drained.
-func c13Run(t *testing.T, mode c13Mode, prog []c13Act) (before, all []c13Inv, problem string) {
+func c13Run(t *testing.T, mode c13Mode, mb *c13Mailbox, prog []c13Act) (before, all []c13Inv, problem string) {
 	a := &c13Actor{prog: prog}
 	p := vfBubble(t, func() {
 		sys := vfNewSystem("c13")
@@ -138,6 +138,9 @@ func c13Run(t *testing.T, mode c13Mode, prog []c13Act) (before, all []c13Inv, pr
 		opts := []SpawnOption{WithLongLived(), WithSupervisor(supervisor.NewSupervisor(supervisor.WithAnyErrorDirective(supervisor.ResumeDirective)))}
 		if mode != c13NoBuffer {
 			opts = append(opts, WithStashing())
+		}
+		if mb != nil && mb.make != nil {
+			opts = append(opts, WithMailbox(mb.make()))
 		}
 		pid, err := sys.Spawn(context.Background(), "a", a, opts...)
 		if err != nil {
@@ -182,7 +185,7 @@ func c13Run(t *testing.T, mode c13Mode, prog []c13Act) (before, all []c13Inv, pr
 
 // c13Validate replays the observed invocations on the two-queue model. n = stream length;
 // nBefore = number of invocations observed before the flush was sent.
-func c13Validate(n int, hasBuffer bool, nBefore int, invs []c13Inv) (sig, detail string) {
+func c13Validate(n int, hasBuffer, batchOrder bool, nBefore int, invs []c13Inv) (sig, detail string) {
 	const (
 		fresh = iota
 		stashed
@@ -222,10 +225,10 @@ func c13Validate(n int, hasBuffer bool, nBefore int, invs []c13Inv) (sig, detail
 						if id != inv.id {
 							continue
 						}
-						if pi != 0 {
+						if pi != 0 && batchOrder {
 							return "unstashall-batch-redelivered-out-of-stash-order", fmt.Sprintf("invocation %d delivers m%d before m%d of the same UnstashAll batch %v", k, inv.id, b[0], b)
 						}
-						batches[bi] = b[1:]
+						batches[bi] = append(append([]int(nil), b[:pi]...), b[pi+1:]...)
 						found = true
 					}
 				}
@@ -309,18 +312,50 @@ func c13Trace(invs []c13Inv) string {
 	return sb.String()
 }
 
-func TestVerifC13(t *testing.T) {
-	defer vsched.Finish(t)
-	n := vsched.Pick(5, 7)
-	for mode := c13Preloaded; mode <= c13NoBuffer; mode++ {
-		e := vsched.NewEnum("stash-"+c13ModeNames[mode], map[string]any{
-			"stream_len": n, "alphabet": "h=handle S=Stash U=Unstash A=UnstashAll", "programs": "all 4^stream_len",
-		})
-		total := 1
-		for i := 0; i < n; i++ {
-			total *= int(c13NumActs)
-		}
-		prog := make([]c13Act, n)
+// c13Mailbox is the actor's MAIN mailbox type (the stash buffer itself is always goakt's own). The
+// handed-out ReceiveContext has a different life cycle per mailbox (intrusive list node, recycled on
+// the next Dequeue, plain queue element), which is exactly what stash/unstash must be immune to.
+// Priority mailboxes get a priority function that ranks all messages equal. The stable ones then
+// deliver in arrival order, so the full oracle applies; the two heap-only (non-stable) ones may
+// permute equally ranked messages themselves, so for them the UnstashAll-batch-order clause is not
+// applied (exactly-once, oldest-first hand-back, nothing lost/duplicated still are).
+type c13Mailbox struct {
+	name       string
+	make       func() Mailbox // nil = default mailbox
+	batchOrder bool
+}
+
+func c13EqualPriority(any, any) bool { return false }
+
+var c13Mailboxes = []c13Mailbox{
+	{"nonblocking-bounded", func() Mailbox { return NewNonBlockingBoundedMailbox(64) }, true},
+	{"bounded", func() Mailbox { return NewBoundedMailbox(64) }, true},
+	{"unbounded-stable-priority", func() Mailbox { return NewUnboundedStablePriorityMailbox(c13EqualPriority) }, true},
+	{"bounded-stable-priority", func() Mailbox { return NewBoundedStablePriorityMailbox(64, c13EqualPriority) }, true},
+	{"unbounded-priority", func() Mailbox { return NewUnboundedPriorityMailBox(c13EqualPriority) }, false},
+	{"bounded-priority", func() Mailbox { return NewBoundedPriorityMailbox(64, c13EqualPriority) }, false},
+	{"unbounded-fair", func() Mailbox { return NewUnboundedFairMailbox() }, true},
+	{"unbounded-segmented", func() Mailbox { return NewUnboundedSegmentedMailbox() }, true},
+}
+
+// c13Enumerate runs all 4^n programs of the given modes with one mailbox as one scenario.
+func c13Enumerate(t *testing.T, scenario string, n int, modes []c13Mode, mb *c13Mailbox) {
+	params := map[string]any{
+		"stream_len": n, "alphabet": "h=handle S=Stash U=Unstash A=UnstashAll", "programs": "all 4^stream_len",
+		"mailbox": "default (UnboundedMailbox)", "batch_order_clause": true,
+	}
+	batchOrder := true
+	if mb != nil {
+		params["mailbox"], params["batch_order_clause"] = mb.name, mb.batchOrder
+		batchOrder = mb.batchOrder
+	}
+	e := vsched.NewEnum(scenario, params)
+	total := 1
+	for i := 0; i < n; i++ {
+		total *= int(c13NumActs)
+	}
+	prog := make([]c13Act, n)
+	for _, mode := range modes {
 		for code := 0; code < total; code++ {
 			if !e.Mine() {
 				continue
@@ -335,12 +370,15 @@ func TestVerifC13(t *testing.T) {
 				ps.WriteString(c13ActNames[a])
 			}
 			in := c13ModeNames[mode] + ":" + ps.String()
-			before, all, problem := c13Run(t, mode, prog)
+			if mb != nil {
+				in = mb.name + "/" + in
+			}
+			before, all, problem := c13Run(t, mode, mb, prog)
 			if problem != "" {
 				e.Fail("harness-panic", in, "%s", problem)
 				continue
 			}
-			if sig, detail := c13Validate(n, mode != c13NoBuffer, len(before), all); sig != "" {
+			if sig, detail := c13Validate(n, mode != c13NoBuffer, batchOrder, len(before), all); sig != "" {
 				e.Fail(sig, in, "program %s: %s; invocations (id+action, F=flush): %s", in, detail, c13Trace(all))
 			}
 			// non-trivial: at least one message was delivered more than once (a re-delivery happened)
@@ -351,6 +389,19 @@ func TestVerifC13(t *testing.T) {
 			}
 			e.Case(in, c13Trace(all), len(all), redelivered)
 		}
-		e.Done()
+	}
+	e.Done()
+}
+
+func TestVerifC13(t *testing.T) {
+	defer vsched.Finish(t)
+	n := vsched.Pick(5, 7)
+	for mode := c13Preloaded; mode <= c13NoBuffer; mode++ {
+		c13Enumerate(t, "stash-"+c13ModeNames[mode], n, []c13Mode{mode}, nil)
+	}
+	// the same programs (preloaded + paced) over every other main-mailbox type
+	nm := vsched.Pick(5, 6)
+	for i := range c13Mailboxes {
+		c13Enumerate(t, "stash-mailbox-"+c13Mailboxes[i].name, nm, []c13Mode{c13Preloaded, c13Paced}, &c13Mailboxes[i])
 	}
 }
